@@ -366,6 +366,31 @@ fn main() {
             st
         }).reduce(Stats::default, Stats::merge)
     };
+    // near-aliases: tag names that fall together under a careless canonicalisation (case, `v`, `-` / `_` / `.` taken as one
+    // separator, zeros dropped) although they denote different versions - `1.0-1` is 1.0.post1, `1.0.1` is not; every pair and
+    // every triple of one family on one commit, in every order
+    let s_alias = {
+        let mut fams: Vec<Vec<String>> = vec![];
+        for base in ["1.0", "2.3", "1!1.0", "V1.0", "v2.03"] { for n in ["1", "2", "04", "10"] {
+            let mut fam: Vec<String> = vec![base.to_string()];
+            for sep in ["", ".", "-", "_"] { for word in ["", "post", "rev", "r", "a", "rc", "c", "dev", "POST", "Alpha", "pre"] {
+                fam.push(format!("{base}{sep}{word}{n}"));
+                if !word.is_empty() { fam.push(format!("{base}{sep}{word}{sep}{n}")); fam.push(format!("{base}{sep}{word}")); }
+                fam.push(format!("{base}{sep}{word}{n}.dev1"));
+            }}
+            fam.sort(); fam.dedup();
+            fam.retain(|t| rp::parse(t).is_some() && PEP440::from_str(t).is_ok());
+            fams.push(fam);
+        }}
+        fams.par_iter().map(|fam| {
+            let mut st = Stats::default();
+            st.add("near_alias_texts", fam.len() as u64);
+            for a in fam { for b in fam { if a != b { st.inc("near_alias_lists"); judge_tag_list(&ctx, &[a.clone(), b.clone()], &mut st); } } }
+            let small: Vec<&String> = fam.iter().step_by(5).collect();
+            for a in &small { for b in &small { for c in &small { if a != b && b != c && a != c { st.inc("near_alias_lists"); judge_tag_list(&ctx, &[(*a).clone(), (*b).clone(), (*c).clone()], &mut st); } } } }
+            st
+        }).reduce(Stats::default, Stats::merge)
+    };
     let tri_n = if ctx.quick() { 150 } else { 400 };
     let stride = (u.len() / tri_n).max(1);
     // stride chosen odd relative to 5 spellings so that all spellings occur
@@ -380,7 +405,7 @@ fn main() {
     let head = &u[..u.len().min(1500)];
     if check_pairs(&ctx, head).digest != check_pairs(&ctx, head).digest { machinery_error("determinism replay diverged"); }
 
-    let all = s_pairs.clone().merge(s_tri).merge(s_mt).merge(s_long);
+    let all = s_pairs.clone().merge(s_tri).merge(s_mt).merge(s_long).merge(s_alias);
     for (t, e) in REJECTED.lock().unwrap().iter() { ctx.violation("universe_member_rejected", format!("{t:?}"), json!({"kind":"member","text":t}), format!("the real parser rejects this spelling of a valid version: {e}")); }
     let mut cov = Coverage::default();
     cov.states = (u.len() + ub.len() + ul.len() + ur.len() + up.len()) as u64 + sweep_states;
